@@ -123,8 +123,8 @@ SPECIFIC = {
     "C12": ["readersim"],
     "C14": ["vectors", "readersim", "maxima"],
     "C10": ["timesim"],
-    "C13": ["twins-cancel"],
-    "C15": ["twins-fragment", "twins-stall", "readersim"],
+    "C13": ["twins-cancel", "twins-fragcancel"],
+    "C15": ["twins-fragment", "twins-stall", "twins-fragcancel", "readersim"],
     "C17": ["arenasim", "twins-aged"],
     # property -> extra groups (generated by tools/gen_*.py, registered in GENERATORS below)
 }
@@ -353,7 +353,7 @@ def gen_twins(kind):
 
 
 GENERATORS = {"legality": gen_program("legality"), "shapes": gen_program("shapes"), "maxima": gen_program("maxima"),
-              "twins-aged": gen_aged, "arenasim": gen_arenasim, "readersim": gen_readersim, "timesim": gen_timesim, "vectors": gen_vectors, "twins-stall": gen_twins("stall"), "twins-cancel": gen_twins("cancel"), "twins-fragment": gen_twins("fragment"), "common": gen_common, "witness": gen_witness, "cover": gen_cover, "sim": gen_sim}
+              "twins-aged": gen_aged, "arenasim": gen_arenasim, "readersim": gen_readersim, "timesim": gen_timesim, "vectors": gen_vectors, "twins-stall": gen_twins("stall"), "twins-fragcancel": gen_twins("fragcancel"), "twins-cancel": gen_twins("cancel"), "twins-fragment": gen_twins("fragment"), "common": gen_common, "witness": gen_witness, "cover": gen_cover, "sim": gen_sim}
 
 
 def generate(group, tier, seed, outdir, mqv, root):
